@@ -6,6 +6,8 @@
             Write::write_all (std: retries, errors on zero) and the vectored function above
   ERRORS    no io::Result / SerError result in the writer module is dropped (one reviewed exception: Drop)
 Nothing structural is declined (std is trusted).
+  MUSTCALL  (shared with C15) a failed flush inside into_inner comes out as Err, not as a panic in Drop   (found F29)
+  RETRY     ... a block write that failed is remembered and never re-sent from its first byte          (found F30)
 """
 from ..lib import *
 from ..inventory import natural_loops
